@@ -255,8 +255,10 @@ Fixpoint arg_best (better : Z -> Z -> bool) (v : list Z) (pos : Z) (best bpos : 
 Definition argmin (v : list Z) : Z := match v with [] => 0 | x :: v' => arg_best Z.ltb v' 1 x 0 end.
 Definition argmax (v : list Z) : Z := match v with [] => 0 | x :: v' => arg_best Z.gtb v' 1 x 0 end.
 
-Definition rb_select (v : list Z) : list Z :=
+(* [off] is the constant added to argmax in the source (translated into gen/GenRubber.v) *)
+Definition rb_select_off (off : Z) (v : list Z) : list Z :=
   let min_idx := argmin v in
-  let max_idx := argmax v + 1 in
+  let max_idx := argmax v + off in
   if min_idx <? max_idx then pyslice v (Some min_idx) (Some max_idx)
   else pyslice v (Some min_idx) None ++ pyslice v None (Some max_idx).
+Definition rb_select (v : list Z) : list Z := rb_select_off 1 v.
